@@ -89,6 +89,6 @@ def queries(tier):
     return out
 
 MANIFEST = {
-    "text": "Hostile-peer steps decided on the real code with the wire bytes symbolic: SP handshake accepted iff well-formed else exactly that connection dropped; any length prefix vs any RECVMAXSZ refused before allocation; malformed/over-TTL/short protocol headers (REQ/REP/SURVEY/RESPOND/PAIR1/XREP/XRESPOND/XREQ/XSURVEY) never delivered, freed once, sender disconnected or dropped as specified, header capacity never exceeded; websocket frame headers (masking, length forms, opcodes, per-frame and whole-message size limits with fragments already queued); one arbitrary UDP datagram through the real udp_rx_cb (delivered iff version, source and length field are consistent with what arrived and the negotiated maximum; lying length -> DISC and only that pipe dropped; receive always re-posted); the accept loop survives every accept result.",
+    "text": "Hostile-peer steps decided on the real code with the wire bytes symbolic: SP handshake accepted iff well-formed else exactly that connection dropped; any length prefix vs any RECVMAXSZ refused before allocation; malformed/over-TTL/short protocol headers (REQ/REP/SURVEY/RESPOND/PAIR1/XREP/XRESPOND/XREQ/XSURVEY) never delivered, freed once, sender disconnected or dropped as specified, header capacity never exceeded; websocket frame headers (masking, length forms, opcodes, per-frame and whole-message size limits with fragments already queued); one arbitrary UDP datagram through the real udp_rx_cb (delivered iff version, source and length field are consistent with what arrived and the negotiated maximum; lying length -> DISC and only that pipe dropped; receive always re-posted); the accept loop survives every accept result. Also: the limits configured on a websocket listener / dialer (NNG_OPT_RECVMAXSZ, max frame sizes) are exactly the limits the new connection's frame decoder runs with (ws_handler, ws_dialer_dial; finding F31: the dialer side ignored RECVMAXSZ - repaired), and a peer that hangs up during the handshake of a tcp / ipc listener (stream reports NNG_ECLOSED) is never reported to the socket with a code that means 'endpoint closed'.",
     "note": "Re-uses the C01/C04/C07/C08/C13/C16 harnesses restricted to their hostile-input queries plus the listener accept and udp receive kernels; udp connection handshake/timers and long hostile sessions outside.",
 }
